@@ -124,7 +124,7 @@ theorem split_shape (st : StructTable) (isMap : Bool) (pty : Ty) (r : RExp) (ixs
     simp [c1, c2, staticIndices] at hs
   | split c m e => simp [isMapLit, liftSplitTy, filterR, staticIndices] at hs
   | merge c m e => simp [isMapLit, liftSplitTy, filterR, staticIndices] at hs
-  | disabled d v => simp [HasTyR] at hty
+  | disabled d v => simp [isMapLit, liftSplitTy, filterR, staticIndices] at hs
   | fork c ix e => simp [isMapLit, liftSplitTy, filterR, staticIndices] at hs
 
 /-! ## well-typed programs with map calls of stages -/
